@@ -40,6 +40,10 @@ CHECKS = {
   text="One qualifier analysis across Simulator, Sampler, QuickSampler, Analyzer, Backend and pdist_calc (49 resolved sink checks) decides that photon and mode counts are never mixed across visible/full spaces, heralds of the right side are inserted and loss modes padded before every backend call, post-selection sees visible states, loss configurations are enumerated from same-space counts, results are keyed by visible states and the quick sampler renormalises over exactly what it kept; a guard-dependency rule decides that no simulation object refuses a circuit on a predicate of the circuit alone. Necessary conditions of the cross-object equalities; the numeric relations and the performance/error-rate formulas are not claimed.",
   note="Trusted: frozen qualifier tables (rb_states.py); unknown qualifiers never report, floor of resolved checks prevents vacuity.",
   tech=TECH + "qualifier dataflow with interprocedural parameter propagation (fixpoint over 23 functions), guard term-dependency analysis", ref="DESIGN.md §3 R-B, R-D(refusals), R-G; §4 C05"),
+ "C18": dict(
+  text="May-alias analysis of every return/yield path of State and AnnotatedState decides, for all inputs, that no public method hands out or writes the private occupation list (or an inner label list); a whole-package ordering rule decides that no list captured by State(...) is mutated after construction (84 sites); structural rules decide that +, merge and slicing build new values, that __hash__ reads a subset of what __eq__ compares, that labels are sorted at construction, that herald removal pops in descending order and insertion walks positions, that dB conversion accepts exactly [0,1) and that the validated seed reaches the generators. These are the immutability / round-trip clauses in full; conversion numerics and validity of random matrices are not claimed.",
+  note="Trusted: State.__init__ keeps the caller's list by documented design; callers outside lightworks are out of scope; scipy/numpy generators deterministic for a seed.",
+  tech=TECH + "AST points-to/escape analysis with summaries, event-order rule on captured lists, field-dependence set comparison, comparison normal form", ref="DESIGN.md §3 R-C4, R-C5, R-L, R-J3; §4 C18"),
 }
 NA = {}
 
